@@ -26,5 +26,12 @@ func init() {
 		Thorough: grid(rng(1, 3), rng(0, 11)), QTThorough: 400,
 		Desc:   "raw RCPT argument -> handler trimming -> NewRecipient: accepted => non-empty fixed point",
 		Bounds: "params (mode, exact length of the text after 'TO:'); all byte values",
+	}, Harness{
+		Prop: "C04", Pkg: "server/pop3", Func: "VerifC04Pop3",
+		Quick:    [][]int64{{1}, {2}, {3}},
+		Thorough: [][]int64{{1}, {2}, {3}},
+		Unwind:   40,
+		Desc:     "POP3 as a read interface: USER/PASS or APOP with any spelling of the delivery address (case, +extension, full address) reaches the mailbox ExtractMailbox names for it in the configured naming mode (STAT shows its message, DELE+QUIT remove it from that mailbox)",
+		Bounds:   "param (naming mode); five spellings of one address and USER/APOP (symbolic selectors); real POP3 session with the addressing policy set as pkg/server/lifecycle.go sets it (the wiring line itself is outside)",
 	})
 }
